@@ -469,6 +469,11 @@ pub fn encode_with_fixed_block_size<T: Source>(
     for f in frames {
         stream.add_frame(f);
     }
+    // The last block may be shorter than `block_size`, but it is excluded from
+    // the minimum block size (RFC 9639, section 8.2).
+    stream
+        .stream_info_mut()
+        .set_block_sizes(block_size, block_size)?;
 
     stream
         .stream_info_mut()
